@@ -359,7 +359,7 @@ def run_shard(spec, ctx, acc):
         lo, hi = codec.int_range(t)
         for raw in range(lo, hi + 1):
             case = {"kind": "codec", "t": t, "raw": raw}
-            out = check(case)
+            out = core.checked(check, case)
             out.classes = ["codec-exhaustive"]
             out.dig = None
             out.sample = None
@@ -369,25 +369,25 @@ def run_shard(spec, ctx, acc):
         # just outside the range must be refused
         for val in (hi + 1, lo - 1, hi + 256, lo - 256):
             case = {"kind": "refuse", "t": t, "val": val}
-            core.handle(acc, check(case), case, known)
+            core.handle(acc, core.checked(check, case), case, known)
         return
     if what == "protocol":
         for v in range(65536):
             case = {"kind": "protocol", "p": bytes([v >> 8, v & 0xFF])}
-            out = check(case)
+            out = core.checked(check, case)
             out.dig = None
             if core.handle(acc, out, case, known):
                 break
         for tail in (b"\x00", b"GGA,1", b"\xff" * 9):  # longer raw messages: only the prefix counts
             for p in (b"\xb5\x62", b"$G", b"\xd3\x00", b"\xd3\x04", b"$\x00", b"\xb5\x63"):
                 case = {"kind": "protocol", "p": p + tail}
-                core.handle(acc, check(case), case, known)
+                core.handle(acc, core.checked(check, case), case, known)
         return
     if what == "cksum-exh":
         for ln in (0, 1, 2):
             for v in range(256 ** ln):
                 case = {"kind": "checksum", "x": v.to_bytes(ln, "big")}
-                out = check(case)
+                out = core.checked(check, case)
                 out.dig = None
                 if core.handle(acc, out, case, known):
                     return
@@ -400,7 +400,7 @@ def run_shard(spec, ctx, acc):
                      bytes((i * 7 + ln) & 0xFF for i in range(ln))]
             for x in conts:
                 case = {"kind": "checksum", "x": x}
-                out = check(case)
+                out = core.checked(check, case)
                 out.classes = list(out.classes) + ["checksum-saturated"]
                 if core.handle(acc, out, case, known):
                     return
@@ -439,7 +439,7 @@ def run_shard(spec, ctx, acc):
             strat = rawst.map(lambda raw, t=t: {"kind": "codec", "t": t, "raw": raw})
             core.hyp_search(acc, strat, check, seed=sd("codec", t), max_examples=80 * n, known=known)
             case = {"kind": "nomval", "t": t}
-            core.handle(acc, check(case), case, known)
+            core.handle(acc, core.checked(check, case), case, known)
     elif part == 1:
         for t in ts:
             if t == "CH" or t[0] == "R":
